@@ -9,8 +9,8 @@ for d in seeded/*/; do
   SID=$(basename $d)
   PID=$(python3 -c "import json;print(json.load(open('$d/meta.json'))['property'])")
   if ! git -C /repo diff --quiet; then echo "/repo dirty"; exit 9; fi
-  if git -C /repo apply --check $d/patch.diff 2>/dev/null; then
-    git -C /repo apply $d/patch.diff
+  if git -C /repo apply --check /verif/$d/patch.diff 2>/dev/null; then
+    git -C /repo apply /verif/$d/patch.diff
     ./check $PID --tier quick > .scratch/matrix_${SID}.out 2>&1; RC=$?
     git -C /repo checkout -- .
     V=$(grep -m1 "^VIOLATION" .scratch/matrix_${SID}.out | sed -e 's/.*json  //' | cut -c1-160)
